@@ -133,8 +133,13 @@ func propC18(t *rapid.T) {
 		c := &ForeignCase{Fixture: rapid.SampledFrom(cfg.fixtures).Draw(t, "fixture")}
 		f := fx.Get(c.Fixture)
 		cols := f.Root.Columns()
+		// mostly values, sometimes mostly nulls (chunks and pages without a single value)
+		cfg.gen.NullPct = rapid.SampledFrom([]int{20, 20, 20, 90}).Draw(t, "nullPct")
 		c.Batches = genBatches(t, f, cfg)
-		c.Phys = genPhys(t, f.Root, c.Batches, true)
+		// two thirds of the files are plain apart from the injected feature; one third also carries the optional, ignorable footer
+		// and chunk metadata other writers add (chunk statistics with null counts, key/value data, encoding stats, mixed codecs,
+		// legacy level labels) - all of which C04 shows the reader accepts
+		c.Phys = genPhys(t, f.Root, c.Batches, rapid.IntRange(0, 2).Draw(t, "richMeta") != 0)
 		kinds := injectKinds
 		if k := os.Getenv("VERIF_C18_KINDS"); k != "" {
 			kinds = strings.Split(k, ",")
